@@ -352,8 +352,14 @@ func (p *path) addRule(
 		invalid(tok)
 	}
 
-	if y, ok := cursor.methods[verb]; ok || cursor.methodAll != nil {
-		if y.desc.FullName() != desc.FullName() {
+	// A rule conflicts with an earlier one bound to the same kind on this path:
+	// kind '*' is held by methodAll, every other kind by methods[verb].
+	existing := cursor.methodAll
+	if verb != "*" {
+		existing = cursor.methods[verb]
+	}
+	if existing != nil {
+		if existing.desc.FullName() != desc.FullName() {
 			return fmt.Errorf("duplicate rule %v", rule)
 		}
 		return nil // Method already registered.
